@@ -14,7 +14,8 @@ func monitor(rep *emit.Report, c *caseRun) {
 	w := c.w
 	per := time.Duration(w.Period) * time.Second
 	lastRound := int64(0)
-	genesisSig := int64(-12345) // abstract id of the signature of round 0 as first written
+	genesisSig := "" // the signature of round 0 as first written
+	genesisSeen := false
 	// valid contributors seen so far per (round, prev id): independent count for C03
 	// (the first accepted partial of an index for a (round, prev) occupies that index's slot, as in the
 	// node's cache; whether it counts is decided under the polynomial that is live when the count is made)
@@ -237,6 +238,15 @@ func monitor(rep *emit.Report, c *caseRun) {
 				}
 			}
 		}
+		// C02: round 0 is written once; what a handler start re-inserts is the same genesis beacon (a
+		// resharing keeps the genesis seed: another value changes the chain under every node that restarts)
+		for _, g := range s.obs.Genesis {
+			if !genesisSeen {
+				genesisSeen, genesisSig = true, g
+			} else if g != genesisSig {
+				rep.Fail("C02-genesis-replaced-by-another-value", "a handler start wrote round 0 again with a value that differs from the genesis beacon the chain started with", in)
+			}
+		}
 		for _, p := range s.obs.Puts {
 			// C01: every stored beacon verifies
 			if !p.Verifies {
@@ -255,15 +265,6 @@ func monitor(rep *emit.Report, c *caseRun) {
 				rep.Fail("C03-beacon-from-fewer-than-threshold", fmt.Sprintf("round %d was stored (event %s, no sync stream involved) although fewer than the threshold (%d) of distinct live members had contributed a valid partial for it", p.Round, s.ev.Kind, thr), in)
 			}
 			// C02: gap-free, written once
-			// C02: round 0 is written once; what a restart re-inserts is the same genesis beacon (a
-			// resharing keeps the genesis seed: another value would change the chain under every node that restarts)
-			if p.Round == 0 {
-				if genesisSig == -12345 {
-					genesisSig = p.Sig
-				} else if p.Sig != genesisSig {
-					rep.Fail("C02-genesis-replaced-by-another-value", "a handler start wrote round 0 again with a value that differs from the genesis beacon the chain started with", in)
-				}
-			}
 			if int64(p.Round) != lastRound+1 && !(p.Round == 0 && lastRound >= 0) {
 				rep.Fail("C02-gap-or-rewrite", fmt.Sprintf("Put of round %d after round %d", p.Round, lastRound), in)
 			}
